@@ -682,4 +682,58 @@ theorem bare_of_ascii : ∀ b : UInt8, 0x20 ≤ b.toNat → b.toNat ≤ 0x7e →
   apply byte_forall; decide +kernel
 
 
+/-! ## Clean byte strings: what the lexer fragment accepts -/
+
+/-- A concatenation of valid encodings of runes other than NUL, LF, CR. -/
+inductive Clean : Bytes → Prop
+  | nil : Clean []
+  | cons {p : Bytes} {r : Nat} {rest : Bytes} : ValidEnc p r → r ≠ 0 → r ≠ 0x0a → r ≠ 0x0d →
+      Clean rest → Clean (p ++ rest)
+
+theorem Clean.append {a b : Bytes} (ha : Clean a) (hb : Clean b) : Clean (a ++ b) := by
+  induction ha with
+  | nil => simpa using hb
+  | cons hv h0 h1 h2 _ ih => rw [List.append_assoc]; exact .cons hv h0 h1 h2 ih
+
+theorem Clean.byte {b : UInt8} {rest : Bytes} (h : b.toNat < 0x80) (h0 : b.toNat ≠ 0)
+    (h1 : b.toNat ≠ 0x0a) (h2 : b.toNat ≠ 0x0d) (hr : Clean rest) : Clean (b :: rest) :=
+  Clean.cons (p := [b]) (Or.inl ⟨b, rfl, h, rfl⟩) h0 h1 h2 hr
+
+theorem valid_len1 {p : Bytes} {r : Nat} (h : ValidEnc p r) (hl : p.length = 1) : r < 0x80 := by
+  refine h.cases ?_ ?_ ?_ ?_
+  · intro b0 hp h1 er; omega
+  · intro b0 b1 hp; subst hp; simp at hl
+  · intro b0 b1 b2 hp; subst hp; simp at hl
+  · intro b0 b1 b2 b3 hp; subst hp; simp at hl
+
+theorem valid_bytes_not {p : Bytes} {r : Nat} (h : ValidEnc p r) (c : UInt8) (hc : c.toNat < 0x80)
+    (hne : r ≠ c.toNat) : c ∉ p := by
+  intro m
+  by_cases hr : r < 0x80
+  · obtain ⟨b, hb, hbr⟩ := valid_ascii h hr
+    rw [hb] at m; simp at m; subst m; exact hne hbr.symm
+  · have := valid_high h (by omega) c m; omega
+
+theorem Clean.fragment {q : Bytes} (h : Clean q) : inFragment q = true ∧ validUTF8 q = true := by
+  induction h with
+  | nil => exact ⟨rfl, rfl⟩
+  | @cons p r rest hv h0 h1 h2 _ ih =>
+    obtain ⟨i1, i2⟩ := ih
+    constructor
+    · have n0 := valid_bytes_not hv 0 (by decide) (by simpa using h0)
+      have n1 := valid_bytes_not hv 0x0a (by decide) (by simpa using h1)
+      have n2 := valid_bytes_not hv 0x0d (by decide) (by simpa using h2)
+      simp only [inFragment, Bool.not_eq_true', Bool.or_eq_false_iff, List.contains_eq_mem,
+        decide_eq_false_iff_not, List.mem_append, not_or] at i1 ⊢
+      exact ⟨⟨⟨n0, i1.1.1⟩, ⟨n1, i1.1.2⟩⟩, ⟨n2, i1.2⟩⟩
+    · unfold validUTF8 at i2 ⊢
+      rw [runes_valid_append hv, List.all_cons, i2]
+      have : ¬ (r = runeError ∧ p.length = 1) := by
+        rintro ⟨a, b⟩; have := valid_len1 hv b; rw [a] at this; unfold runeError at this; omega
+      simp only [Bool.and_true, Bool.not_eq_true', Bool.and_eq_false_iff, beq_eq_false_iff_ne]
+      by_cases hr : r = runeError
+      · right; intro hl; exact this ⟨hr, hl⟩
+      · left; exact hr
+
+
 end ShVerif.C13
